@@ -53,6 +53,7 @@ type Violation struct {
 }
 
 type workerOut struct {
+	Maxes      map[string]int64
 	Evals      int64
 	Distinct   []uint64
 	Counters   map[string]int64
@@ -83,6 +84,7 @@ type Ctx struct {
 	evals      int64
 	distinct   map[uint64]struct{}
 	counters   map[string]int64
+	maxes      map[string]int64
 	samples    []string
 	violations []violationWire
 	sigSeen    map[string]int
@@ -153,6 +155,15 @@ func (c *Ctx) Distinct(key string) {
 func (c *Ctx) Count(name string, n int) {
 	c.mu.Lock()
 	c.counters[name] += int64(n)
+	c.mu.Unlock()
+}
+
+// Max keeps the maximum of a named gauge.
+func (c *Ctx) Max(name string, v int) {
+	c.mu.Lock()
+	if int64(v) > c.maxes[name] {
+		c.maxes[name] = int64(v)
+	}
 	c.mu.Unlock()
 }
 
@@ -258,7 +269,7 @@ func newCtx(p *Prop, tier string, seed uint64) *Ctx {
 	return &Ctx{
 		Prop: p.ID, Tier: tier, Seed: seed, Quick: tier != "thorough",
 		nshards:  1,
-		distinct: map[uint64]struct{}{}, counters: map[string]int64{}, sigSeen: map[string]int{},
+		distinct: map[uint64]struct{}{}, counters: map[string]int64{}, maxes: map[string]int64{}, sigSeen: map[string]int{},
 	}
 }
 
@@ -373,7 +384,7 @@ func startWatchdog(c *Ctx, p *Prop, out string) {
 func writeOut(c *Ctx, path string, done bool) {
 	c.mu.Lock()
 	defer c.mu.Unlock()
-	o := workerOut{Evals: c.evals, Counters: c.counters, Samples: c.samples, Violations: c.violations, Done: done}
+	o := workerOut{Evals: c.evals, Maxes: c.maxes, Counters: c.counters, Samples: c.samples, Violations: c.violations, Done: done}
 	o.Distinct = make([]uint64, 0, len(c.distinct))
 	for h := range c.distinct {
 		o.Distinct = append(o.Distinct, h)
@@ -417,6 +428,11 @@ func (m *merged) add(o *workerOut) {
 	}
 	for k, v := range o.Counters {
 		m.counters[k] += v
+	}
+	for k, v := range o.Maxes {
+		if v > m.counters["max_"+k] {
+			m.counters["max_"+k] = v
+		}
 	}
 	for _, s := range o.Samples {
 		if len(m.samples) < 5 {
@@ -549,6 +565,10 @@ func driverMain(propID, tier string) int {
 		})
 	}
 
+	if prefix := os.Getenv("VERIF_RACE_LOG"); prefix != "" {
+		scanRaceLogs(prefix, propID, m)
+	}
+
 	for _, k := range p.Require {
 		if m.counters[k] == 0 {
 			m.inconclusive = append(m.inconclusive, "required event never observed: "+k)
@@ -641,7 +661,7 @@ func fatalSig(dump string) string {
 		}
 		if frame == "" && strings.HasPrefix(t, "github.com/formancehq/numscript/") && !strings.Contains(t, "verifharness") {
 			f := strings.TrimPrefix(t, "github.com/formancehq/numscript/")
-			if i := strings.Index(f, "("); i > 0 {
+			if i := strings.LastIndex(f, "("); i > 0 {
 				f = f[:i]
 			}
 			frame = strings.TrimPrefix(f, "internal/")
@@ -794,4 +814,61 @@ func (k *knownFile) match(v Violation) *knownEntry {
 		return e
 	}
 	return nil
+}
+
+// scanRaceLogs turns the race detector's reports (GORACE log_path=prefix) into violations,
+// de-duplicated by the innermost repository frames of the two conflicting accesses.
+func scanRaceLogs(prefix, propID string, m *merged) {
+	files, _ := filepath.Glob(prefix + ".*")
+	sort.Strings(files)
+	seen := map[string]bool{}
+	for _, f := range files {
+		b, err := os.ReadFile(f)
+		if err != nil {
+			continue
+		}
+		blocks := strings.Split(string(b), "==================")
+		for _, blk := range blocks {
+			if !strings.Contains(blk, "WARNING: DATA RACE") {
+				continue
+			}
+			m.counters["race_report_blocks"]++
+			var frames []string
+			inStack := false
+			got := false
+			for _, l := range strings.Split(blk, "\n") {
+				t := strings.TrimSpace(l)
+				if strings.HasPrefix(t, "Write at") || strings.HasPrefix(t, "Read at") || strings.HasPrefix(t, "Previous write at") || strings.HasPrefix(t, "Previous read at") {
+					inStack, got = true, false
+					continue
+				}
+				if t == "" {
+					inStack = false
+					continue
+				}
+				if inStack && !got && strings.HasPrefix(t, "github.com/formancehq/numscript/") && !strings.Contains(t, "verifharness") {
+					fn := strings.TrimPrefix(t, "github.com/formancehq/numscript/")
+					if i := strings.LastIndex(fn, "("); i > 0 {
+						fn = fn[:i]
+					}
+					frames = append(frames, strings.TrimPrefix(fn, "internal/"))
+					got = true
+				}
+			}
+			sort.Strings(frames)
+			sig := "race:" + strings.Join(frames, "|")
+			if seen[sig] {
+				continue
+			}
+			seen[sig] = true
+			txt := blk
+			if len(txt) > 6000 {
+				txt = txt[:6000]
+			}
+			m.violations = append(m.violations, Violation{Prop: propID, Case: "race-detector", Sig: sig,
+				What:  "the Go race detector reported a data race between " + strings.Join(frames, " and "),
+				Input: map[string]any{"report": txt}})
+		}
+	}
+	m.counters["race_log_files_scanned"] += int64(len(files))
 }
